@@ -135,7 +135,7 @@ Definition ex_sp := tbl_space [].
 (** first issuance: unknown name, decision function says yes *)
 Example C02_ex_first_issuance :
   let w := World (Some (PDecision (fun _ _ => true))) 0 [] [] 0 1 in
-  handshake ex_sp w (Hello (Some ex_name) None true false) =
+  handshake ex_sp w (Hello (Some ex_name) None None MgrNone true false) =
     ([EDecision ex_name true; ELoad ex_name; ELoad (wild ex_name); EExists ex_name; EIssue ex_name; ELoad ex_name],
      [], RCert 1, World (w_od w) 0 [Cert 1 [ex_name] true false false false false None]
                         [(ex_name, Cert 1 [ex_name] true false false false false None)] 1 2).
@@ -145,14 +145,14 @@ Proof. vm_compute. reflexivity. Qed.
 Example C02_ex_storage_missing_denied :
   let c := Cert 1 [ex_name] true true false false false None in
   let w := World (Some (PDecision (fun _ _ => false))) 0 [c] [] 0 2 in
-  handshake ex_sp w (Hello (Some ex_name) (Some 1) true false) =
+  handshake ex_sp w (Hello (Some ex_name) (Some 1) None MgrNone true false) =
     ([EExists ex_name; EDecision ex_name false; EEvict 1], [], RCert 1, World (w_od w) 0 [] [] 1 2).
 Proof. vm_compute. reflexivity. Qed.
 (** renewal in the background: its own goroutine evaluates the policy before the Issue *)
 Example C02_ex_background_renewal :
   let c := Cert 1 [ex_name] true true false false false None in
   let w := World (Some (PAllow [ex_name])) 0 [c] [(ex_name, c)] 0 2 in
-  let '(own, kids, res, _) := handshake ex_sp w (Hello (Some ex_name) (Some 1) true false) in
+  let '(own, kids, res, _) := handshake ex_sp w (Hello (Some ex_name) (Some 1) None MgrNone true false) in
   (own, kids, res) =
     ([EExists ex_name], [[EAllow ex_name true; ELoad ex_name; EIssue ex_name; ELoad ex_name]], RCert 1).
 Proof. vm_compute. reflexivity. Qed.
@@ -164,8 +164,8 @@ Example C02_ex_vanish_od_off :
   let c := Cert 1 [ex_name] true true false false false None in
   let fill := map (fun i => Cert i [[120]] false false false false false None) [2;3;4;5;6;7;8;9;10] in
   let w := World None 10 fill [(ex_name, c)] 0 11 in
-  let '(own, kids, res, _) := handshake ex_sp w (Hello (Some ex_name) None true true) in
-  (own, kids, res) = ([ELoad ex_name; EExists ex_name; EEvict 1], [], RErr 4).
+  let '(own, kids, res, _) := handshake ex_sp w (Hello (Some ex_name) None None MgrNone true true) in
+  (own, kids, res) = ([ELoad ex_name; EExists ex_name; EEvict 1], [], RErr 3).
 Proof. vm_compute. reflexivity. Qed.
 
 (** the witness of finding C13-maintenance-failure-obtain (fixed), seen from C02: an expired
@@ -176,7 +176,36 @@ Proof. vm_compute. reflexivity. Qed.
 Example C02_ex_loaded_expired_then_denied :
   let c := Cert 1 [ex_name] true true true false false None in
   let w := World (Some (PDecision (fun k _ => Nat.eqb k 0))) 0 [] [(ex_name, c)] 0 2 in
-  let '(own, kids, res, w') := handshake ex_sp w (Hello (Some ex_name) None true false) in
+  let '(own, kids, res, w') := handshake ex_sp w (Hello (Some ex_name) None None MgrNone true false) in
   (own, kids, res, w_cache w') =
-    ([EDecision ex_name true; ELoad ex_name; EExists ex_name; EDecision ex_name false; EEvict 1], [], RErr 4, []).
+    ([EDecision ex_name true; ELoad ex_name; EExists ex_name; EDecision ex_name false; EEvict 1], [], RErr 3, []).
+Proof. vm_compute. reflexivity. Qed.
+
+(** on-demand off, nothing cached for the name, a certificate cached for FallbackServerName
+    ("defaulted" by the cache lookup): the subject check, no storage access, the fallback certificate *)
+Example C02_ex_fallback_certificate :
+  let d := Cert 7 [[102]] false false false false false None in
+  let w := World None 0 [d] [] 0 8 in
+  handshake ex_sp w (Hello (Some ex_name) None (Some 7) MgrNone true false) = ([], [], RCert 7, w).
+Proof. vm_compute. reflexivity. Qed.
+(** ... but not when the policy refuses the name *)
+Example C02_ex_fallback_not_after_denial :
+  let d := Cert 7 [[102]] false false false false false None in
+  let w := World (Some (PDecision (fun _ _ => false))) 0 [d] [] 0 8 in
+  let '(own, kids, res, _) := handshake ex_sp w (Hello (Some ex_name) None (Some 7) MgrNone true false) in
+  (own, kids, res) = ([EDecision ex_name false], [], RErr 2).
+Proof. vm_compute. reflexivity. Qed.
+(** an external manager (cfg.OnDemand.Managers) is asked before the policy; its certificate is
+    served without any policy evaluation, storage access or issuance *)
+Example C02_ex_manager_certificate :
+  let w := World (Some (PDecision (fun _ _ => false))) 0 [] [] 0 2 in
+  handshake ex_sp w (Hello (Some ex_name) None None (MgrCert 9) true false) = ([EManager ex_name], [], RCert 9, w).
+Proof. vm_compute. reflexivity. Qed.
+(** the managers yield nothing: the usual gated path follows *)
+Example C02_ex_manager_empty_then_issuance :
+  let w := World (Some (PAllow [])) 0 [] [] 0 1 in
+  let '(own, kids, res, _) := handshake ex_sp w (Hello (Some ex_name) None None MgrEmpty true false) in
+  (own, kids, res) =
+    ([EManager ex_name; EAllow ex_name true; ELoad ex_name; ELoad (wild ex_name); EExists ex_name; EIssue ex_name; ELoad ex_name],
+     [], RCert 1).
 Proof. vm_compute. reflexivity. Qed.
